@@ -353,7 +353,7 @@ func ruleA6(c *Ctx) {
 					for _, a2 := range x.Call.Args {
 						if mc, isMc := stripValue(a2).(*ssa.MakeClosure); isMc {
 							if f2, isF := mc.Fn.(*ssa.Function); isF {
-								if _, has := hasExpiryTest(f2, isExp); has {
+								if _, has := hasExpiryTest(f2, isExp); has && acceptsOnlyLive(f2, isExp) {
 									ok = true
 								}
 							}
@@ -362,7 +362,7 @@ func ruleA6(c *Ctx) {
 					if ok {
 						c.S.OK("A6-expiry", key, pos, "the accompanying callback tests isExpired on each element")
 					} else {
-						c.S.Bad("A6-expiry", key, pos, fmt.Sprintf("%s hands the keyspace dictionary to %s without an expiry-testing callback", fnName(fn), calleeName(x)))
+						c.S.Bad("A6-expiry", key, pos, fmt.Sprintf("%s hands the keyspace dictionary to %s without a callback that tests expiry on every way it accepts an entry", fnName(fn), calleeName(x)))
 					}
 				}
 			case *ssa.UnOp:
@@ -447,11 +447,81 @@ func visitorTestsExpiry(call *ssa.Call, isExp map[*ssa.Function]bool) bool {
 	for _, a := range call.Call.Args {
 		if mc, ok := stripValue(a).(*ssa.MakeClosure); ok {
 			if g, ok := mc.Fn.(*ssa.Function); ok {
-				if _, has := hasExpiryTest(g, isExp); has {
+				if _, has := hasExpiryTest(g, isExp); has && acceptsOnlyLive(g, isExp) {
 					return true
 				}
 			}
 		}
 	}
 	return false
+}
+
+// acceptsOnlyLive: every return of the visitor that accepts the entry (a result that is not nil / not false) lies on the
+// "not expired" side of the expiry test — a second way out that accepts without the test (a TYPE filter answered before
+// the expiry test) lets dead keys through.
+func acceptsOnlyLive(g *ssa.Function, isExp map[*ssa.Function]bool) bool {
+	// blocks on the live side: dominated by the successor of an If on (a negation of) the expiry call that means "not expired"
+	live := func(b *ssa.BasicBlock) bool {
+		for x := b; x != nil && x.Idom() != nil; x = x.Idom() {
+			d := x.Idom()
+			ifi, ok := d.Instrs[len(d.Instrs)-1].(*ssa.If)
+			if !ok {
+				continue
+			}
+			cond, neg := ifi.Cond, false
+			for {
+				u, isU := cond.(*ssa.UnOp)
+				if !isU || u.Op != token.NOT {
+					break
+				}
+				cond, neg = u.X, !neg
+			}
+			c2, ok := cond.(*ssa.Call)
+			if !ok || c2.Call.StaticCallee() == nil || !isExp[c2.Call.StaticCallee()] {
+				continue
+			}
+			for i, s := range d.Succs {
+				if (s == x || s.Dominates(x)) && len(s.Preds) == 1 {
+					expiredSide := (i == 0) != neg
+					if !expiredSide {
+						return true
+					}
+				}
+			}
+		}
+		return false
+	}
+	for _, b := range g.Blocks {
+		ret, ok := b.Instrs[len(b.Instrs)-1].(*ssa.Return)
+		if !ok || len(ret.Results) == 0 {
+			continue
+		}
+		// which incoming values accept? (results merged by a phi are judged edge by edge)
+		r := ret.Results[0]
+		type src struct {
+			v   ssa.Value
+			blk *ssa.BasicBlock
+		}
+		var srcs []src
+		if phi, isPhi := r.(*ssa.Phi); isPhi && phi.Block() == b {
+			for i, e := range phi.Edges {
+				srcs = append(srcs, src{e, b.Preds[i]})
+			}
+		} else {
+			srcs = append(srcs, src{r, b})
+		}
+		for _, s := range srcs {
+			v := s.v
+			if isNilConst(v) {
+				continue
+			}
+			if k, isC := v.(*ssa.Const); isC && k.Value != nil && k.Value.String() == "false" {
+				continue
+			}
+			if !live(s.blk) {
+				return false
+			}
+		}
+	}
+	return true
 }
